@@ -3,7 +3,7 @@
    Selective and non-selective strategies; join/try_join (slice and tuple), merge, zip, both groups. *)
 From Coq Require Import List Arith Bool.
 Import ListNotations.
-Require Import ScanFull InstsFull Pass ObligJoin ObligMZ ObligGroups GhostTrace NonSel PassPolls.
+Require Import ScanFull InstsFull Pass ObligJoin ObligMZ ObligGroups GhostTrace NonSel PassPolls Progress.
 
 Theorem C20_join tuple tryj scs ops i : let w := join_world true tryj tuple scs ops in
   g_retpend _ w = true -> g_quiet _ w = true -> i < N _ j_slots w -> aw _ j_awaited w i = true -> polled _ w i = true.
@@ -49,6 +49,61 @@ Theorem C20_group_trace stream cap0 ops i : let w := group_world true stream cap
   t_ret g = true -> t_quiet g = true -> i < N _ g_slots w -> aw _ g_awaited w i = true -> t_polled g i = true.
 Proof. exact (group_C20_trace stream cap0 ops i). Qed.
 Print Assumptions C20_join_trace. Print Assumptions C20_merge_trace. Print Assumptions C20_zip_trace. Print Assumptions C20_group_trace.
+
+(* ---- the second sentence: a child that stays Pending for ever never keeps a sibling from being polled when it is woken, or the result from being
+        delivered.  Selective strategy, any reachable state w in which the combinator is neither finished nor dropped, any child j that is still
+        awaited and has signalled since its last poll (fired) or has never been polled: the very next poll (with a fresh or the same parent waker)
+        polls j - its trace segment u contains a child poll made with j's own sub-waker - unless it delivers a result before the scan reaches j
+        (merge / the groups yield an item, try_join an error; the still-set readiness bit then makes the same statement apply to the poll after) or
+        unwinds.  Nothing is assumed about the other children.  (Non-selective strategy: every awaited child is polled in every poll, NonSel.) *)
+Theorem C20_join_sibling_progress tuple tryj scs ops o j : (o = OPollFresh \/ o = OPollSame) -> let w := join_world true tryj tuple scs ops in
+  finished _ w = false -> dropped _ w = false -> j < N _ j_slots w -> aw _ j_awaited w j = true -> (fired _ w j = true \/ polled _ w j = false) ->
+  exists pid u, tr _ (join_world true tryj tuple scs (ops ++ [o])) = tr _ w ++ EB pid :: u /\ (subpolled j u \/ (exists r, In (EEndR r) u) \/ In EEndX u).
+Proof. exact (join_progress tuple tryj scs ops o j). Qed.
+Theorem C20_merge_sibling_progress scs ops o j : (o = OPollFresh \/ o = OPollSame) -> let w := merge_world true scs ops in
+  finished _ w = false -> dropped _ w = false -> j < N _ m_n w -> aw _ m_awaited w j = true -> (fired _ w j = true \/ polled _ w j = false) ->
+  exists pid u, tr _ (merge_world true scs (ops ++ [o])) = tr _ w ++ EB pid :: u /\ (subpolled j u \/ (exists r, In (EEndR r) u) \/ In EEndX u).
+Proof. exact (merge_progress scs ops o j). Qed.
+Theorem C20_zip_sibling_progress scs ops o j : (o = OPollFresh \/ o = OPollSame) -> let w := zip_world true scs ops in
+  finished _ w = false -> dropped _ w = false -> j < N _ z_n w -> aw _ z_awaited w j = true -> (fired _ w j = true \/ polled _ w j = false) ->
+  exists pid u, tr _ (zip_world true scs (ops ++ [o])) = tr _ w ++ EB pid :: u /\ (subpolled j u \/ (exists r, In (EEndR r) u) \/ In EEndX u).
+Proof. exact (zip_progress scs ops o j). Qed.
+Theorem C20_group_sibling_progress stream cap0 ops o j : (o = OPollFresh \/ o = OPollSame) -> let w := group_world true stream cap0 ops in
+  finished _ w = false -> dropped _ w = false -> j < N _ g_slots w -> aw _ g_awaited w j = true -> (fired _ w j = true \/ polled _ w j = false) ->
+  exists pid u, tr _ (group_world true stream cap0 (ops ++ [o])) = tr _ w ++ EB pid :: u /\ (subpolled j u \/ (exists r, In (EEndR r) u) \/ In EEndX u).
+Proof. exact (group_progress stream cap0 ops o j). Qed.
+Print Assumptions C20_join_sibling_progress. Print Assumptions C20_merge_sibling_progress. Print Assumptions C20_zip_sibling_progress. Print Assumptions C20_group_sibling_progress.
+
+(* the same with "has signalled since its last poll" / "has never been polled" recomputed from the observable trace by gfold *)
+Theorem C20_join_sibling_progress_trace tuple tryj scs ops nxt j : (nxt = OPollFresh \/ nxt = OPollSame) ->
+  let w := join_world true tryj tuple scs ops in let g := gfold (ginit (length scs)) (tr _ w) in
+  finished _ w = false -> dropped _ w = false -> j < N _ j_slots w -> aw _ j_awaited w j = true -> (t_fired g j = true \/ t_polled g j = false) ->
+  exists pid u, tr _ (join_world true tryj tuple scs (ops ++ [nxt])) = tr _ w ++ EB pid :: u /\ (subpolled j u \/ (exists r, In (EEndR r) u) \/ In EEndX u).
+Proof. exact (join_progress_trace tuple tryj scs ops nxt j). Qed.
+Theorem C20_merge_sibling_progress_trace scs ops nxt j : (nxt = OPollFresh \/ nxt = OPollSame) ->
+  let w := merge_world true scs ops in let g := gfold (ginit (length scs)) (tr _ w) in
+  finished _ w = false -> dropped _ w = false -> j < N _ m_n w -> aw _ m_awaited w j = true -> (t_fired g j = true \/ t_polled g j = false) ->
+  exists pid u, tr _ (merge_world true scs (ops ++ [nxt])) = tr _ w ++ EB pid :: u /\ (subpolled j u \/ (exists r, In (EEndR r) u) \/ In EEndX u).
+Proof. exact (merge_progress_trace scs ops nxt j). Qed.
+Theorem C20_zip_sibling_progress_trace scs ops nxt j : (nxt = OPollFresh \/ nxt = OPollSame) ->
+  let w := zip_world true scs ops in let g := gfold (ginit (length scs)) (tr _ w) in
+  finished _ w = false -> dropped _ w = false -> j < N _ z_n w -> aw _ z_awaited w j = true -> (t_fired g j = true \/ t_polled g j = false) ->
+  exists pid u, tr _ (zip_world true scs (ops ++ [nxt])) = tr _ w ++ EB pid :: u /\ (subpolled j u \/ (exists r, In (EEndR r) u) \/ In EEndX u).
+Proof. exact (zip_progress_trace scs ops nxt j). Qed.
+Theorem C20_group_sibling_progress_trace stream cap0 ops nxt j : (nxt = OPollFresh \/ nxt = OPollSame) ->
+  let w := group_world true stream cap0 ops in let g := gfold (ginit 0) (tr _ w) in
+  finished _ w = false -> dropped _ w = false -> j < N _ g_slots w -> aw _ g_awaited w j = true -> (t_fired g j = true \/ t_polled g j = false) ->
+  exists pid u, tr _ (group_world true stream cap0 (ops ++ [nxt])) = tr _ w ++ EB pid :: u /\ (subpolled j u \/ (exists r, In (EEndR r) u) \/ In EEndX u).
+Proof. exact (group_progress_trace stream cap0 ops nxt j). Qed.
+Print Assumptions C20_join_sibling_progress_trace. Print Assumptions C20_merge_sibling_progress_trace. Print Assumptions C20_zip_sibling_progress_trace. Print Assumptions C20_group_sibling_progress_trace.
+
+(* the premises are met: child 0 never completes, child 1 was polled, answered Pending and has fired its waker since *)
+Example C20_progress_witness :
+  let scs := [[]; [{| fires := []; answer := APend |}; {| fires := []; answer := AReady (ROk 7) |}]] in
+  let w := join_world true false false scs [OPollFresh; OFire 1 0] in
+  finished _ w = false /\ dropped _ w = false /\ 1 < N _ j_slots w /\ aw _ j_awaited w 1 = true /\ fired _ w 1 = true /\
+  tr _ (join_world true false false scs ([OPollFresh; OFire 1 0] ++ [OPollSame])) = tr _ w ++ [EB 0; EC 1 (WSub 1); EAns (AReady (ROk 7)); EDc 1; EEndP].
+Proof. vm_compute. repeat split; reflexivity. Qed.
 
 (* race and race_ok hand the caller's waker straight to their children.  One poll, from ANY state: if it returns Pending (its trace segment is
    EB pid :: u ++ [EEndP]) then it has polled, in that very poll and with the caller's waker pid, every child (race) resp. every child that has not
